@@ -16,7 +16,7 @@ CHECKS = {
          "Every execution of the real server on enumerated message scripts is compared at each quiescent point with an exact per-message response prediction (unique ids/tags/tokens): nothing early, nothing lost or duplicated, array flag and order, handlers exactly once.", BUBBLE),
  "C02": ("exploration", "runtime monitor: independent JSON-RPC member classifier vs live server output + handler-invocation log + liveness probe, product of field variants and seeded byte mutations",
          "Each input record is sent to a live server; emitted bytes, handler invocation counts and a follow-up probe are judged by a reference classifier written from the spec/README; the variant product is exhaustive in the thorough tier, sampled in quick.", INPUT),
- "C03": ("exploration", "runtime monitor: handler enter/exit event log checked at synctest quiescent points over enumerated scripts x release orders x delay-bounded schedules, race detector; built-in call over a slow assigner under a mutex-deadlock detector",
+ "C03": ("exploration", "runtime monitor: handler enter/exit event log checked at synctest quiescent points over enumerated scripts x release orders x delay-bounded schedules, race detector; built-in call over a slow assigner under a mutex-deadlock detector, and behind a running notification whose effect must be in its answer",
          "Ordering oracle (notification exit before later enter) and work-conservation oracle at every quiescent point of every execution; each hook visit parked in turn.", BUBBLE),
  "C04": ("exploration", "runtime monitor: raw scripted peer with unique reply tokens vs values returned by real Client.Call/Batch, enumerated reply permutations/partitions/extras, pending-set snapshot, delay-bounded schedules; rendezvous transport with a single-threaded peer under a mutex-deadlock detector (stop-the-world stack snapshots)",
          "All permutations and groupings of replies (plus duplicates, malformed, unknown ids, server requests) for small operation sets; each slot must return the first token sent for its id.", BUBBLE),
@@ -32,7 +32,7 @@ CHECKS = {
          "All short histories of callbacks, replies (late, duplicate, unknown), cancellations, deadlines, colliding client calls and Stop; emitted records must be exactly those the pushes and calls account for.", BUBBLE),
  "C10": ("exploration", "runtime monitor: instrumented channel with online overlap counters + race-detector shadow fields + record validator under real-time stress and delay-bounded bubble scenarios",
          "The channel the library is given detects a second concurrent Send/Recv, Send||Close, a second Close and incomplete records at the instant they happen, under stress and under every single-hook delay.", "trusts the Go race detector and the harness channel; overlap is only detected when it actually occurs in an explored execution"),
- "C11": ("exploration", "runtime monitor: chunk-controlled reader under every cut set; received records compared byte for byte with sent records; deterministic two-thread schedules with one operation suspended inside its transport call while a sibling channel of the same Framing value or the other direction of the same channel runs",
+ "C11": ("exploration", "runtime monitor: chunk-controlled reader under every cut set; received records compared byte for byte with sent records; deterministic two-thread schedules with one operation suspended inside its transport call while a sibling channel of the same Framing value or the other direction of the same channel runs; a writer that refuses every Write of seeded Sends (receiver sees exactly the records whose Send returned nil)",
          "Round trip of pipelined record sequences through every framing under exhaustive small cut sets and boundary sizes; channels used in company (siblings, duplex) must not disturb each other.", INPUT),
  "C12": ("fault_enumeration", "runtime monitor: three reference decoders vs Recv results on exhaustive token strings, absurd lengths, every truncation point, bodies around 4 MiB, channel lifecycles (exhausted / closed / successors); crash attribution by journal",
          "Every token string up to the bound, every truncation point of valid streams and absurd lengths are decoded by the real framings and compared with reference decoders; panics and fatal errors are violations.", INPUT),
@@ -48,7 +48,7 @@ CHECKS = {
          "All method-name strings over the boundary alphabet, as names and map keys, nested ServiceMaps, both DisableBuiltin settings; every JSON spelling of a name dispatches alike; rpc.serverInfo follows a changing assigner.", INPUT),
  "C18": ("exploration", "runtime monitor: per-POST oracle (reference classifier, unique tags, handler log) on a real Bridge via httptest; concurrent POSTs with colliding ids gated inside synctest bubbles, delay-bounded schedules, real-time stress under the race detector",
          "Bodies from the request-variant product and concurrent POSTs sharing ids are answered by the real bridge; each caller must get exactly its own responses with its own id text, invalid members their own errors, refused requests no handler run.", BUBBLE),
- "C19": ("exploration", "runtime monitor: reference query-value typer vs ParseQuery; live Getter status mapping; HTTP-channel scenarios in synctest bubbles with body-close accounting and leak scan",
+ "C19": ("exploration", "runtime monitor: reference query-value typer vs ParseQuery; live Getter status mapping; HTTP-channel scenarios in synctest bubbles with body-close accounting and leak scan, incl. hundreds of operations over one long-lived channel compared op by op with a direct connection",
          "Exhaustive short query values plus grammar-directed ones; Getter status/body; jhttp.Channel equivalence with a direct connection and cleanup at Close.", BUBBLE),
  "C20": ("exploration", "runtime monitor: reference model of Loop vs logs of instrumented services/accepter at quiescent points; enumerated scripts, delay-bounded schedules, NetAccepter over in-memory listener (half-closable connections), accept errors of seven flavours, failing connections, exactly one Close per served channel",
          "All short scripts of connects, closes, cancels, accepter errors and Assigner failures; Finish exactly once after exit, Loop returns last.", BUBBLE),
